@@ -404,5 +404,64 @@ class DaskMixinsInheritCore(Contract):
         return res, {'paths': 0, 'seconds': 0, 'branch_checks': 0, 'outcomes': [], 'dropped': [], 'cover': []}
 
 
-ALL = [DaskMap, DaskStarmap, DaskAccumulate, ScatterS0, ScatterS1, ScatterS2, GatherS0, GatherS1, GatherS2, GatherS1Failed, GatherS2Failed, ScatterS1Failed, ScatterS2Failed,
+class DaskSubmitKeys(Contract):
+    """Syntactic obligation on every `client.submit(...)` of dask.py: dask identifies a task by its key -- two submissions with the
+    same key are ONE task, the second caller gets the first one's future.  Left to dask, the key is a token of the function and of
+    all arguments.  A key chosen by the caller (`key=...`) must therefore depend on everything the task's result depends on: every
+    name / attribute the other arguments of the call mention must also be mentioned by the key expression (through local
+    assignments).  No `key=` at all satisfies the obligation."""
+    file = DASK
+    files = [DASK, 'streamz/core.py']
+    qual = 'DaskStream.__init__'
+    name = 'dask task keys determine the task'
+    props = ['C20']
+
+    @staticmethod
+    def _refs(expr, env, depth=0):
+        out = set()
+        for n in ast.walk(expr):
+            if isinstance(n, ast.Attribute):
+                out.add(ast.unparse(n))
+            elif isinstance(n, ast.Name):
+                if n.id in env and depth < 4:
+                    out |= DaskSubmitKeys._refs(env[n.id], env, depth + 1)
+                else:
+                    out.add(n.id)
+        # an attribute chain a.b.c also mentions a.b and a
+        return set(r for r in out if not any(o != r and o.startswith(r + '.') for o in out))
+
+    def verify(self, index, props=None, want_models=True):
+        src, tree = index.files[DASK]
+        res = []
+        t0 = time.time()
+        n_calls = 0
+        for cls in [n for n in tree.body if isinstance(n, ast.ClassDef)]:
+            for fn in [m for m in cls.body if isinstance(m, (ast.FunctionDef, ast.AsyncFunctionDef))]:
+                env = {}
+                for st in ast.walk(fn):
+                    if isinstance(st, ast.Assign) and len(st.targets) == 1 and isinstance(st.targets[0], ast.Name):
+                        env[st.targets[0].id] = st.value
+                for call in [c for c in ast.walk(fn) if isinstance(c, ast.Call) and isinstance(c.func, ast.Attribute) and c.func.attr == 'submit']:
+                    n_calls += 1
+                    key = [k.value for k in call.keywords if k.arg == 'key']
+                    ok, detail = True, ''
+                    if key:
+                        kenv = {k: v for k, v in env.items()}
+                        have = self._refs(key[0], kenv)
+                        need = set()
+                        for a in list(call.args) + [k.value for k in call.keywords if k.arg not in ('key', 'pure', 'workers', 'retries', 'priority', 'resources')]:
+                            need |= self._refs(a.value if isinstance(a, ast.Starred) else a, {})
+                        need -= {'apply', 'getitem', 'operator.getitem'}
+                        missing = sorted(r for r in need if r not in have)
+                        ok = not missing
+                        detail = '' if ok else ('%s.%s: the task key does not depend on %s, which the task is given' % (cls.name, fn.name, ', '.join(missing)))
+                    res.append(Result('%s/%s.%s_submit_line_%d' % (self.name, cls.name, fn.name, call.lineno), self.props,
+                                      'proved' if ok else 'failed', 'syntactic', time.time() - t0, path='ast', contract=self, detail=detail))
+        res.append(Result(self.name + '/submit_calls_found', self.props, 'proved' if n_calls >= 3 else 'failed', 'syntactic', time.time() - t0,
+                          path='ast', contract=self, detail='' if n_calls >= 3 else 'only %d client.submit calls located in dask.py' % n_calls))
+        self.outcomes = []
+        return res, {'paths': 0, 'seconds': 0, 'branch_checks': 0, 'outcomes': [], 'dropped': [], 'cover': []}
+
+
+ALL = [DaskSubmitKeys, DaskMap, DaskStarmap, DaskAccumulate, ScatterS0, ScatterS1, ScatterS2, GatherS0, GatherS1, GatherS2, GatherS1Failed, GatherS2Failed, ScatterS1Failed, ScatterS2Failed,
        DaskMixinsInheritCore]
